@@ -100,6 +100,10 @@ def c01_curated():
         rule(H("out2", x, y, z_), For(PV("z"), Rng(C(0), C(2))), Cl("foo", x, y), Cl("bar", y, z_)),
         rule(H("out3", x, z_), Cl("o", Pat(PC("Some", PV("q")))), Let(PV("z"), Bin("%", Bin("+", V("q"), C(1)), C(3))), Cl("foo", x, y), Cl("bar", y, z_)),
         rule(H("foo", x, z_), For(PV("z"), Rng(C(1), C(3))), Cl("foo", x, y), Cl("bar", y, z_))]))
+    P.append(Program("join_repeat_second", [R("foo", I, I), R("bar", I, I), R("r", I, I), R("r2", I, I)], [
+        rule(H("r", x, y), Cl("foo", x, y), Cl("bar", y, y)),
+        rule(H("r2", x, y), Cl("bar", y, y), Cl("foo", x, y)),
+        rule(H("foo", y, x), Cl("r", x, y), Cl("foo", y, y))]))
     P.append(Program("arity3", [R("t", I, I, I), R("s", I, I), R("u", I, I, I)], [
         rule(H("u", x, y, z_), Cl("t", x, y, z_)),
         rule(H("u", x, z_, y), Cl("u", x, y, z_), Cl("s", y, z_)),
@@ -313,12 +317,15 @@ def c07_curated():
         rule(H("r", x, y), Cl("o", Pat(PC("Some", PV("x"))), y)),
         rule(H("s", x), Cl("o", Pat(PC("Some", PV("x"))), y), Cl("e", y, x), Cl("o", _, y)),
         rule(H("s", y), Cl("e", x, y), Cl("o", Pat(PC("Some", PV("q"))), x), If(Bin("!=", V("q"), y))),
-        rule(H("o", Ctor("Some", y), x), Cl("r", x, y), Cl("o", Pat(PC("None")), _))]))
+        rule(H("o", Ctor("Some", y), x), Cl("r", x, y), Cl("o", Pat(PC("None")), _)),
+        rule(H("r", x, y), Cl("o", Pat(PC("Some", PV("x"))), _), Cl("o", Pat(PC("Some", PV("y"))), C(1)))]))
     P.append(Program("repeated_vars", [R("e", I, I), R("t", I, I, I), R("a", I), R("b", I, I), R("c", I, I)], [
         rule(H("a", x), Cl("t", x, x, x)),
         rule(H("b", x, y), Cl("e", x, y), Cl("t", y, x, y)),
         rule(H("c", x, y), Cl("e", x, _), Cl("e", _, y), Cl("t", x, y, x)),
         rule(H("b", x, x), Cl("b", x, y), Cl("e", y, y)),
+        rule(H("a", x), Let(PV("z"), C(1)), Cl("e", x, y), Cl("b", y, z_)),
+        rule(H("c", x, y), Cl("e", x, y), Cl("b", y, y)),
         rule(H("c", y, y), Cl("c", x, y), Cl("b", y, x), Cl("t", x, _, y))]))
     P.append(Program("expr_args", [R("e", I, I), R("f", I, I), R("r", I, I), R("s", I, I)], [
         rule(H("r", x, y), Cl("e", x, Bin("%", Bin("+", x, C(1)), C(3))), Cl("f", x, y)),
@@ -362,6 +369,17 @@ def c08_curated():
         rule([MacroCall("hd", [x, y])], Cl("e", x, y)),
         rule(H("near", x, y), MacroCall("either", [x, y]), If(Bin("!=", x, y))),
         rule([MacroCall("hd", [x, V("k")])], MacroCall("either", [x, y]), Cl("near", y, V("k")))], macros=[hd, disjm]))
+    # a Rust macro call (matches!) mentioning a macro-local variable, inside a disjunction of the macro body,
+    # with a call-site variable of the same spelling; and two locals spelled `x` / `x1` with repeated invocations
+    small = MacroDef("small", [("a", "ident"), ("r", "ident")], [Disj([
+        [Cl("e", V("a"), y), If(Matches(y, [1, 2])), Cl("g", y, V("r"))],
+        [Cl("g", V("a"), y), Cl("e", y, V("r"))]])])
+    hop3 = MacroDef("hop3", [("a", "ident"), ("b", "ident")], [Cl("e", V("a"), V("x")), Cl("e", V("x"), V("x1")), Cl("e", V("x1"), V("b"))])
+    P.append(Program("macro_rustmacro_locals", [R("e", I, I), R("g", I, I), R("r", I, I, I), R("h", I, I)], [
+        rule(H("r", x, y, z_), Cl("e", x, y), MacroCall("small", [y, z_])),
+        rule(H("h", a, c), MacroCall("hop3", [a, b]), MacroCall("hop3", [b, c])),
+        rule(H("h", a, V("x")), Cl("g", a, V("x")), MacroCall("hop3", [a, b]), MacroCall("hop3", [b, V("x")]), MacroCall("hop3", [V("x"), a]))],
+        macros=[small, hop3]))
     # call-site variables spelled like gensym outputs / macro-local names
     loc = MacroDef("loc", [("a", "ident")], [Cl("e", V("a"), V("x_")), Cl("e", V("x_"), V("x__")), Cl("g", V("x__"), _)])
     P.append(Program("macro_name_clash", [R("e", I, I), R("g", I, I), R("r", I, I), R("r2", I, I)], [
@@ -418,7 +436,8 @@ def c06_variants(seed, per_base=6, bases=None):
     the constants (function-free programs only)."""
     import itertools as _it
     rng = random.Random(seed)
-    base = [p for p in c01_curated() if p.name in (bases or ("tc", "same_gen", "mutual3", "three_dyn", "join_cond2", "facts_multihead", "two_strata", "empty_rel"))]
+    base = [p for p in c01_curated() if p.name in (bases or ("tc", "same_gen", "mutual3", "three_dyn", "join_cond2", "facts_multihead", "two_strata", "empty_rel",
+                                                              "binder_before_join", "join_repeat_second", "consts_repeats"))]
     out = []
     adversarial = ["tuple", "before", "res", "timeout", "val", "row", "matching", "changed", "total", "delta", "rel_ind", "selection_tuple", "key", "v", "i"]
     for p in base:
@@ -538,6 +557,11 @@ def c09_variants():
         q.locals = {"reflexive": flag}
         q.input_rels = ["r"]
         out.append(q)
+    q = Program("run_two_inits", [R("aa", I, init="aa_in"), R("bb", I, I, init="bb_in"), R("cnt", "usize"), R("sm", I, I)], [
+        rule(H("cnt", n), Agg(PV("n"), "count", [], "aa", [_])),
+        rule(H("sm", x, V("s")), Cl("aa", x), Agg(PV("s"), "sum", ["y"], "bb", [x, y]))], kind="ascent_run")
+    q.input_rels = ["aa", "bb"]
+    out.append(q)
     for bn in ("two_strata", "agg_chain", "mutual3"):
         b = bases[bn]
         q = _clone_prog(b, bn + "__ascent_run")
